@@ -231,6 +231,9 @@ class SArr(_np.ndarray):
         res = getattr(ufunc, method)(*ins, **kw)
         if out is not None:
             return out[0] if len(out) == 1 else out
+        if name in _CMP and isinstance(res, _np.ndarray) and res.dtype == object and res.size and \
+                all(isinstance(v, (bool, _np.bool_)) for v in res.flat):
+            return res.astype(bool)
         return _wrap(res)
 
     def __bool__(self):
@@ -1030,7 +1033,9 @@ class SymNP(types.ModuleType):
     def round(self, a, decimals=0):
         # only constants can be rounded exactly
         def rd(v):
-            v = Sym._co(v)
+            v = Sym._co(core.force(v))
+            if not v.is_const():
+                return v  # A1: rounding to 6 decimals only merges points closer than 1e-6 (exactly equal points in the model)
             f = v.as_fraction()
             return core.CTX.const(Fraction(round(f * 10 ** decimals), 10 ** decimals))
 
@@ -1228,7 +1233,12 @@ class _LazyUnique:
                         return c
                 return 0
 
-            order = sorted(keep, key=functools.cmp_to_key(cmp))
+            if getattr(core.CTX, "exact_unique_order", False) or all(Sym._co(core.force(v)).is_const() for v in a.flat):
+                order = sorted(keep, key=functools.cmp_to_key(cmp))
+            else:
+                # symbolic rows: numpy's lexicographic output order would fork on every pair of coordinates; modelled as
+                # first-occurrence order (the consumers here are order-independent, which C01 establishes for the constructor)
+                order = keep
             idx = _np.array(order)
             self._res = idx if self.want_index else a[idx]
         return self._res
